@@ -27,6 +27,12 @@ def run(c, chk):
     chk.rule('R4.7', 'boolean words and result codes equal the reference table; an unknown word is a reported failure')
     chk.trusted = ['strtol/strtod (C library)', 'clang/opt IR']
     refusal_stops_parse(c, chk)
+    if not isinstance(chk, report.SubCheck):
+        # R4.9: a value token can only be refused if it is handed to the conversion at all: the parser's transitions for
+        # declared options are those of the language (no flag combination diverts the value tokens past the store)
+        from . import c01, c08
+        chk.rule('R4.9', 'every value token written for a declared option reaches the store (the parser table equals the reference automaton, rule R1.1 of C01)')
+        c01.grammar(c, c08.chk_proxy(chk, {'R1.1': 'R4.9'}), pm.ParserModel(c))
     chk.assumptions = ['strtol\'s own grammar (leading blanks, "+") and inf/nan for floats are not decided']
     fn = c.need('cfg_setopt')
     ex = sym.Explorer(c.modules, max_visits=2, mod_sets=c.mod_sets, max_paths=100000)
